@@ -1,6 +1,7 @@
 //! Harness for the DOM properties, on the native in-memory DOM that tachys uses under
 //! `--cfg leptos_verif` (see README.md). `h_dom <sub-command>` reads cases on stdin (one
 //! sexp per line) and prints one observation per line. One file per sub-command.
+mod c04;
 mod c05;
 mod c11;
 mod smoke;
@@ -9,6 +10,7 @@ pub mod util;
 fn main() {
     let which = std::env::args().nth(1).unwrap_or_default();
     match which.as_str() {
+        "c04" => vsexp::drive(c04::run),
         "c05" => vsexp::drive(c05::run),
         "c11" => vsexp::drive(c11::run),
         "smoke" => vsexp::drive(smoke::run),
